@@ -718,7 +718,11 @@ class XmlPeriod(UserString):
             else:
                 year, offset = parse_date_args(value, DateFormat.G_YEAR)
 
-        validate_date(0, month or 1, day or 1)
+        validate_date(
+            0,
+            1 if month is None else month,
+            1 if day is None else day,
+        )
 
         return TimePeriod(year=year, month=month, day=day, offset=offset)
 
